@@ -165,7 +165,7 @@ def declare(reg):
                                                 raises={"Exception": "uf('mf_raises', BOOL, f, v)"}, raise_frame="unchanged",
                                                 ensures=["result == uf('mf_value', U('PVal'), f, v)"],
                                                 note="a mapped function is deterministic in its argument and raises only Exception subclasses")
-    reg.contract(M, "Map.process", raises={"Exception": "not %s or uf('mf_raises', BOOL, self.func, %s)" % (L_OK, L_VL)}, raise_frame="unchanged",
+    reg.contract(M, "Map.process", raises={"Exception": "not %s or uf('mf_raises', BOOL, self.func, %s)" % (L_OK, L_VL)},
                  assume=["len(self.children) >= 1"], modifies=["PCtx.function_error"],
                  ensures=[O("result[0] == %s" % L_NP), O("result[1] == uf('mf_value', U('PVal'), self.func, %s)" % L_VL),
                           "old(pos) <= result[0] and result[0] < len(data)"], **common)
